@@ -109,6 +109,13 @@ def ref_deref(ctx: Ctx) -> RuleResult:
     if not uses_key:
         r.violate("UsageExecNode.result: key path not applied", res.loc(), "the accessor ignores the recorded key path", None)
     if not has_member:
+        guards = [x for x in ast.walk(res.node) if isinstance(x, (ast.If, ast.IfExp, ast.Try))]
+        if not guards:
+            r.violate("UsageExecNode.result: the key path is applied without testing that the id has a result", res.loc(),
+                      "the result of a node that did not run (sub-graph selection, deactivation) must read as None, also through an "
+                      "index or an unpacking: without the membership guard the key path is applied to a missing value and raises",
+                      norm_src(res.node.body[-1]))
+            return r
         raise Undecided("UsageExecNode.result: 'absent id reads as None' not recognised")
     # positive control
     cf = control_funcs(ctx)
@@ -1001,8 +1008,107 @@ def ref_trace(ctx: Ctx) -> RuleResult:
     return r
 
 
+# --------------------------------------------------------------------------------------------- REF-REWIRE
+def ref_rewire(ctx: Ctx) -> RuleResult:
+    """compose: every reference field is rewired under the same test 'the reference points at THE input being replaced'."""
+    r = RuleResult("REF-REWIRE")
+    f = ctx.method("BaseDAG", "compose")
+    chains = _if_chains(f.node)
+    fields = reference_fields(ctx)
+    uq = uxn_q(ctx)
+    sites = []
+    for n in iter_own_nodes(f.node):
+        fld = None
+        if isinstance(n, ast.Assign) and isinstance(n.targets[0], ast.Subscript) and isinstance(n.targets[0].value, ast.Attribute) \
+                and n.targets[0].value.attr in fields and isinstance(n.value, ast.Call) and ctx.T.resolve_callee(f, n.value) == uq:
+            fld = n.targets[0].value.attr
+            new_id = n.value.args[0]
+        elif isinstance(n, ast.Expr) and isinstance(n.value, ast.Call) and dotted(n.value.func) in ("object.__setattr__", "setattr") \
+                and len(n.value.args) == 3 and const_str(n.value.args[1]) in fields and isinstance(n.value.args[2], ast.Call):
+            fld = const_str(n.value.args[1])
+            new_id = n.value.args[2].args[0] if n.value.args[2].args else None
+        if fld is None:
+            continue
+        tests = [t for t, v in chains.get(id(n), ()) if v]
+        sites.append((fld, n, tests, new_id))
+    r.require(len(sites) >= 3, f"compose: only {len(sites)} rewiring sites found")
+    olds = set()
+    for fld, n, tests, new_id in sites:
+        eq = None
+        for t in tests:
+            for c in (t.values if isinstance(t, ast.BoolOp) and isinstance(t.op, ast.And) else [t]):
+                if isinstance(c, ast.Compare) and len(c.ops) == 1 and isinstance(c.left, ast.Attribute) and c.left.attr == "id" \
+                        and is_uxn(ctx, ctx.type_of(f, c.left.value)):
+                    eq = c
+        ok = eq is not None and isinstance(eq.ops[0], ast.Eq) and isinstance(eq.comparators[0], ast.Name)
+        r.ob(ok, {"field": fld, "rewired under": norm_src(eq) if eq is not None else None})
+        if eq is None:
+            r.violate(f"BaseDAG.compose: '{fld}' is rewired without testing which input the reference points at", f.loc(n), "", norm_src(n))
+        elif not ok:
+            r.violate(f"BaseDAG.compose: '{fld}' is rewired under '{norm_src(eq)}', not 'the reference points at the input being replaced'",
+                      f.loc(n), "a reference to ANY composed input is rewired to the new id of the input currently handled by the loop: with "
+                      "several inputs the reference silently follows the wrong argument", norm_src(eq))
+        else:
+            olds.add(eq.comparators[0].id)
+    same = len(olds) <= 1
+    r.ob(same, {"all fields compare with": sorted(olds)})
+    if not same:
+        r.violate("BaseDAG.compose: reference fields are rewired against different old ids", f.loc(), "", sorted(olds))
+    # the (old id, new id) pairs come from one zip over equally long lists
+    loops = [n for n in iter_own_nodes(f.node) if isinstance(n, ast.For) and isinstance(n.iter, ast.Call) and dotted(n.iter.func) == "zip"
+             and olds and any(isinstance(t, ast.Name) and t.id in olds for t in ast.walk(n.target))]
+    r.ob(len(loops) == 1, {"old/new ids paired by": norm_src(loops[0].iter) if loops else None})
+    return r
+
+
+# --------------------------------------------------------------------------------------------- VAL-GENREUSE
+def _one_shot(v: ast.AST) -> bool:
+    if isinstance(v, ast.GeneratorExp):
+        return True
+    if isinstance(v, ast.Call) and dotted(v.func) in ("map", "filter", "iter", "zip", "reversed", "enumerate"):
+        return True
+    return False
+
+
+def _genreuse_hits(ctx: Ctx, funcs: Iterable[FuncInfo]):
+    for f in funcs:
+        for n in iter_own_nodes(f.node):
+            if isinstance(n, ast.Assign) and len(n.targets) == 1 and isinstance(n.targets[0], ast.Name) and _one_shot(n.value):
+                name = n.targets[0].id
+                uses = [x for x in iter_own_nodes(f.node) if isinstance(x, ast.Name) and x.id == name and isinstance(x.ctx, ast.Load)]
+                in_loop = []
+                for lp in iter_own_nodes(f.node):
+                    if isinstance(lp, (ast.For, ast.While, ast.ListComp, ast.SetComp, ast.GeneratorExp, ast.DictComp)) and lp is not n.value:
+                        bodies = lp.body if isinstance(lp, (ast.For, ast.While)) else [lp.elt if not isinstance(lp, ast.DictComp) else lp.value] + \
+                            [i for g in lp.generators for i in g.ifs]
+                        for b in bodies:
+                            for x in ast.walk(b):
+                                if isinstance(x, ast.Name) and x.id == name and isinstance(x.ctx, ast.Load):
+                                    in_loop.append(x)
+                yield f, n, name, len(uses), in_loop
+
+
+def val_genreuse(ctx: Ctx) -> RuleResult:
+    """A one-shot iterator (generator expression, map, filter, ...) bound to a name must not be consumed repeatedly."""
+    r = RuleResult("VAL-GENREUSE")
+    n_sites = 0
+    for f, n, name, nuses, in_loop in _genreuse_hits(ctx, pkg_funcs(ctx)):
+        n_sites += 1
+        ok = not in_loop
+        r.ob(ok, {"one-shot iterator": f"{name} = {norm_src(n.value)[:70]}", "in": f.short, "uses": nuses, "used inside a loop": len(in_loop)})
+        if not ok:
+            r.violate(f"{f.short}: one-shot iterator '{name}' is consumed inside a loop", f.loc(in_loop[0]),
+                      "a generator is exhausted by its first (unsuccessful) membership test or iteration: every later test is vacuously "
+                      "False, so a validation that loops over nodes silently stops refusing", norm_src(n))
+    cf = control_funcs(ctx)
+    if cf:
+        r.require(any(il for _, _, _, _, il in _genreuse_hits(ctx, cf)), "positive control for VAL-GENREUSE did not match")
+    r.ob(True, {"one-shot iterators bound to names": n_sites})
+    return r
+
+
 RULES = {
     "REF-DEREF": ref_deref, "REF-KEY": ref_key, "REF-FIELDS": ref_fields, "REF-ASDICT": ref_asdict, "REF-MAT": ref_mat,
     "REF-SHAPE": ref_shape, "REF-OPS": ref_ops, "REF-NI": ref_ni, "REF-ACTIVE-BUILD": ref_active_build,
-    "REF-FLAGPRED": ref_flagpred, "REF-UNIQ": ref_uniq, "REF-PREFIX": ref_prefix, "REF-SEED": ref_seed, "REF-GETITEM": ref_getitem, "REF-RESERVED": ref_reserved, "REF-TRACE": ref_trace,
+    "REF-FLAGPRED": ref_flagpred, "REF-UNIQ": ref_uniq, "REF-PREFIX": ref_prefix, "REF-SEED": ref_seed, "REF-GETITEM": ref_getitem, "REF-RESERVED": ref_reserved, "REF-TRACE": ref_trace, "REF-REWIRE": ref_rewire, "VAL-GENREUSE": val_genreuse,
 }
